@@ -10,6 +10,31 @@ NOTE = ("Trusted: Coq 8.16.1 kernel (no axioms: every property theorem prints 'C
         "The theorems are about the hand-written Gallina model; the model is tied to /repo on every run by the table "
         "translator and by the differential correspondence run, which bounds what has been exercised.")
 CLAIMED = {
+    "C09": dict(
+        text="9 theorems over an emitter model whose tables are regenerated from emitter.rs: need_quotes s = false => the resolver reads s "
+             "back as the same string (breaks if the resolver disjunct leaves need_quotes); shape facts of unquoted strings; every "
+             "escape_str entry decodes back under the scanner's generated escape table, and escape_body round-trips for ALL strings; "
+             "decimal text of any i64 resolves to that integer; machine-checked refutation witnesses for the recorded multiline/long-key "
+             "classes. The tree-level statement C09_full is stated, not proved. Tie: model-emitted text == implementation text on every "
+             "case; oracle on the implementation: reload == original and re-emission idempotent, 4 settings, exhaustive small strings in "
+             "every position + random trees. Seven known-finding classes (multiline_strings literal blocks; keys > 1024 chars).",
+        ref="DESIGN.md 5/C09", tech="Rocq proof (scalar-level round-trip facts, all strings; generated tables) + emitter-model correspondence + round-trip oracle on implementation; tree level partial"),
+    "C13": dict(
+        text="Theorems C13_tokens_load / _events / _loader / _parser / _numbers: for EVERY JSON value (any depth) the parser+loader+resolver "
+             "models map the token stream json_tokens v to exactly one document yaml_of_json v (numbers via the C08 completeness theorems, "
+             "duplicate names via map_insert). The scanner half (text -> tokens) is not proved; it is tied on every case by comparing the "
+             "implementation's real token stream with json_tokens v. Oracle on the implementation: expected dump from the JSON value and "
+             "the extracted c13_impl_ok, random trees x serialisations with arbitrary insignificant whitespace. Known finding: ':' followed "
+             "by TABs and a scalar is rejected (C13_text_refuted is its machine-checked witness).",
+        ref="DESIGN.md 5/C13", tech="Rocq proof (tokens -> value for all JSON values, induction on the value) + token-stream correspondence + oracle on implementation; scanner half partial"),
+    "C18": dict(
+        text="7 theorems: encoding detection (BOM / first-ASCII-character preconditions stated exactly) picks the right encoding for ALL "
+             "texts; decode_loop over an ABSTRACT decoder satisfying an explicit contract (Section hypotheses) terminates within linear "
+             "fuel and never hits the modelled slice/index panics for ALL inputs and traps, given DECODER_K <= RESERVE_MIN where "
+             "RESERVE_MIN is regenerated from encoding.rs each run; refutation witness for RESERVE_MIN = 0. encoding_rs itself is trusted. "
+             "Tie/oracle: texts x 6 encodings x 7 trap configurations vs loading the text; exhaustive short byte strings and random "
+             "bytes vs Python codecs; watchdog for termination. Known finding: a leading BOM is not skipped when loading text directly.",
+        ref="DESIGN.md 5/C18", tech="Rocq proof (detection; termination under a decoder contract; constant regenerated from source) + differential correspondence vs Python codecs + watchdog"),
     "C15": dict(
         text="Theorem C15_document_end_resets: in the parser model every successful DocumentEnd step empties the anchor table, empties the "
              "tag-handle table unless keep_tags, keeps the state stack and lands in a document-start state (nothing but the anchor id "
